@@ -50,7 +50,8 @@ class Dispatch(Obligation):
         ser = [e for e in log if e[0] == 'serde_json::to_string']
         out.append(Claim('the body is the encoded payload of this message', len(ser) == 1 and rq.body is not None))
         ev = ip.src.enum_variants('SubscriptionRequest')
-        out.append(Claim('exactly one follow-up request, to this subscription', len(enq) == 1 and enq[0][1] == 'subscription' and z3.simplify(enq[0][2] == res['sub'])))
+        # the attempt settles its own delivery (as here), or leaves that to the round (then C14.e decides it)
+        out.append(Claim('at most one follow-up request, to this subscription', len(enq) == 0 or (len(enq) == 1 and enq[0][1] == 'subscription' and z3.simplify(enq[0][2] == res['sub']))))
         if len(enq) == 1:
             req = enq[0][3]
             kind = ev[req.discr][0]
@@ -215,20 +216,73 @@ class PullAndDispatch(Obligation):
         out = [Claim('the round ran to its end', res['ret'] is not None),
                Claim('exactly one pull', kinds.count('PullMessages') == 1 and kinds[0] == 'PullMessages'),
                Claim('one POST per pulled delivery', n == len(sends))]
-        follow = [e for e, kd in zip(enq, kinds) if kd != 'PullMessages']
-        out.append(Claim('one ack or nack per pulled delivery, nothing else', z3.And(n == len(follow), z3.BoolVal(all(kd in ('PullMessages', 'AcknowledgeMessages', 'ModifyDeadline') for kd in kinds)))))
-        ids = []
-        for e in follow:
+        sends = sorted(sends, key=lambda e: log.index(e))
+        out.append(Claim('nothing but acks and nacks follows the pull', all(kd in ('PullMessages', 'AcknowledgeMessages', 'ModifyDeadline') for kd in kinds)))
+        # every settlement the round sends (one per delivery, or batched): (log index, 'ack' | 'nack', slot condition, ack id term)
+        settled = []
+        for li, e in enumerate(log):
+            if e[0] != 'enqueue' or e[1] != 'subscription':
+                continue
             req = e[3]
+            kd = ev[req.discr][0]
+            if kd == 'PullMessages':
+                continue
             seq = req.payload[req.discr][0]
-            if ev[req.discr][0] == 'AcknowledgeMessages':
-                ids.append(ack_of(ctx, seq.elems[0]))
-            else:
-                ids.append(ack_of(ctx, fld(ctx, seq.elems[0], 'DeadlineModification', 'ack_id')))
-            out.append(Claim('each follow-up names one delivery', seq.n == 1))
-        for i in range(len(ids)):
-            out.append(Claim('delivery %d of the page is settled exactly once' % i,
-                             z3.Implies(n > i, z3.Sum([z3.If(x == res['acks'][i], 1, 0) for x in ids]) == 1)))
+            for j, x in enumerate(seq.elems):
+                if kd == 'AcknowledgeMessages':
+                    settled.append((li, 'ack', seq.n > j, ack_of(ctx, x)))
+                else:
+                    nd = fld(ctx, x, 'DeadlineModification', 'new_deadline')
+                    isn = (nd.discr == 0) if isinstance(nd.discr, int) else nd.discr == 0
+                    settled.append((li, 'nack', z3.And(seq.n > j, isn), ack_of(ctx, fld(ctx, x, 'DeadlineModification', 'ack_id'))))
+                    out.append(Claim('a modification sent by the push round is a nack', z3.Implies(seq.n > j, isn)))
+        # outcome of each attempt, in the order the POSTs were started (= page order)
+        outcomes = {}
+        for li, e in enumerate(log):
+            if e[0] == 'http.response':
+                outcomes[id(e[2])] = (li, z3.Or([e[1] == c for c in (102, 200, 201, 202, 204)]))
+            elif e[0] == 'http.error':
+                outcomes[id(e[1])] = (li, z3.BoolVal(False))
+        for i, snd in enumerate(sends):
+            if i >= len(res['acks']):
+                break
+            a_i = res['acks'][i]
+            cnt = z3.Sum([z3.If(z3.And(c, x == a_i), 1, 0) for _, _, c, x in settled] or [z3.IntVal(0)])
+            out.append(Claim('delivery %d of the page is settled exactly once' % i, z3.Implies(n > i, cnt == 1)))
+            oc = outcomes.get(id(snd[1]))
+            if oc is None:
+                out.append(Claim('attempt %d ended before the round ended' % i, False))
+                continue
+            li_o, accepted = oc
+            acked = z3.Or([z3.And(c, x == a_i) for _, k_, c, x in settled if k_ == 'ack'] or [z3.BoolVal(False)])
+            out.append(Claim('delivery %d: acknowledged iff its own attempt was accepted (else nacked)' % i, z3.Implies(n > i, acked == accepted)))
+            # no waiting for the siblings: between the end of this attempt and its settlement no other attempt ends
+            mine = [li for li, _, c, x in settled if z3.is_true(z3.simplify(z3.And(c, x == a_i))) or (p.check(z3.Not(z3.And(c, x == a_i))) == z3.unsat)]
+            # (only when the settlement itself was not kept waiting: a full mailbox may delay it past a sibling's answer)
+            delayed = any(e[0] == 'pending' and e[1] in ('mpsc.send', 'oneshot.recv') for e in log[li_o:min(mine) if mine else len(log)])
+            if mine and not delayed:
+                between = [l2 for k2, (l2, _) in outcomes.items() if k2 != id(snd[1]) and li_o < l2 < min(mine)]
+                out.append(Claim('delivery %d is settled as soon as its own attempt has ended, not after a sibling\'s answer' % i, len(between) == 0))
+        # what is POSTed for delivery i is the encoding of message i (data, both id spellings, attributes), for this subscription
+        ser = [e for e in log if e[0] == 'serde_json::to_string']
+        out.append(Claim('one JSON document per POST', len(ser) == len(sends)))
+        I = z3.IntSort()
+        fmt_int, b64 = z3.Function('fmt_int', I, I), z3.Function('b64_STANDARD_enc_bytes', I, I)
+        for i, e in enumerate(ser[:len(res['toks'])]):
+            pl = e[1]
+            try:
+                pmsg = fld(ctx, pl, 'PushPayload', 'message')
+                g = lambda f: fld(ctx, pmsg, 'PushPayloadMessage', f)
+                msg = res['toks'][i]
+                mid, mdata, mattr = [z3.Function(n_, I, I)(msg) for n_ in ('msg_id', 'msg_data', 'msg_attrs')]
+                out.append(Claim('POST %d carries message %d: base64 of its data, its id in both spellings, its attributes' % (i, i),
+                                 z3.Implies(n > i, z3.And(g('data').tok == b64(mdata), g('message_id').tok == fmt_int(mid), g('message_id_dupe').tok == fmt_int(mid),
+                                                          g('attributes').tok == mattr))))
+            except (ValueError, AttributeError, TypeError) as ex:
+                raise Unsupported('push payload has an unexpected shape: %s' % ex)
+        if len(res['toks']) >= 2:
+            mattr = [z3.Function('msg_attrs', I, I)(t) for t in res['toks'][:2]]
+            out.append(Cover('a message with attributes followed by one without', z3.And(n == 2, mattr[0] != 0, mattr[1] == 0)))
         out.append(Cover('two deliveries pushed', len(sends) == 2))
         out.append(Cover('empty page', len(sends) == 0))
         return out
